@@ -35,7 +35,7 @@ RULE = ("case = (module texts, add order); non-trivial when >= 2 modules are lin
         "boundary; distinct by (texts, order).")
 ASSUMPTIONS = ["nslc.py exit status 0 and an output file = module compiled", "process start cost bounds the sample size"]
 SHARD_TIMEOUT = {"quick": 1200, "thorough": 7200}
-BUDGET = {"quick": 4, "thorough": 80}
+BUDGET = {"quick": 4, "thorough": 50}
 INPUT_X = (0, 2, 5)
 
 
